@@ -93,7 +93,10 @@ def validate_mfl_list(mfl_statement_list):
                     f"Error in {mfl_stringify([s])} :"
                     f" Mandatory effects need to be explicit (not '*')"
                 )
-            if not isinstance(s.parameter, Ref) and not isinstance(s.covariate, Ref):
+            # NOTE : References and wildcards are only known once a model is given
+            if not isinstance(s.parameter, (Ref, Wildcard)) and not isinstance(
+                s.covariate, (Ref, Wildcard)
+            ):
                 if s.optional.option:
                     optional_cov.update(product(s.parameter, s.covariate))
                 else:
